@@ -357,6 +357,21 @@ func (c *EvalCtx) evalCall(x *SCall) (TV, error) {
 			return TV{Val: Val{app(f, h.T, SBase(v.Val).T, SLen(v.Val).T), SStr}, Ty: types.Typ[types.String]}, nil
 		}
 		return TV{Val: c.e.bytesToString(c.st, v.Val), Ty: types.Typ[types.String]}, nil
+	case "iterseen":
+		// iterseen(k): the enclosing range loop over a map has already delivered key k
+		if len(c.st.iters) != 1 {
+			return TV{}, fmt.Errorf("iterseen(): %d iterators are live here (need exactly one)", len(c.st.iters))
+		}
+		k, err := c.eval(x.Args[0])
+		if err != nil {
+			return TV{}, err
+		}
+		for _, vis := range c.st.iters {
+			if !vis.S.IsArray() {
+				return TV{}, fmt.Errorf("iterseen(): not a map iterator")
+			}
+			return TV{Val: Select(vis, k.Val), Ty: types.Typ[types.Bool]}, nil
+		}
 	case "itercount":
 		// number of keys delivered so far by the map iterator of the enclosing range loop
 		if c.fr == nil {
@@ -479,6 +494,36 @@ func (c *EvalCtx) ghostField(gf *GhostField, args []SExpr) (TV, error) {
 		return TV{}, err
 	}
 	t, _, _ := (&EvalCtx{e: c.e, spec: gf.Spec}).resolveType(gf.Sort)
+	if ab := c.e.abstractionFor(gf.Name, loc); ab != nil {
+		// refinement check: the interface-level ghost field of the receiver is its abstraction function
+		recvT, _, err := (&EvalCtx{e: c.e, spec: ab.Spec}).resolveType(ab.OnType)
+		if err != nil {
+			return TV{}, fmt.Errorf("%s:%d: %v", ab.File, ab.Line, err)
+		}
+		base := &EvalCtx{e: c.e, st: c.st, old: c.old, fr: c.fr, spec: ab.Spec, depth: c.depth, bind: map[string]TV{ab.Param: {Val: loc, Ty: recvT}}}
+		if ab.IdxVar == "" {
+			return base.eval(ab.Body)
+		}
+		it, is, err := base.resolveType(ab.IdxType)
+		if err != nil {
+			return TV{}, fmt.Errorf("%s:%d: %v", ab.File, ab.Line, err)
+		}
+		return TV{Val: Val{"|abstract " + gf.Name + "|", s}, Abs: func(idx TV) (TV, error) {
+			iv, err := c.coerce(idx, TV{Val: Val{"", is}, Ty: it})
+			if err != nil {
+				return TV{}, err
+			}
+			if iv.S != is {
+				return TV{}, fmt.Errorf("abstraction %s: index sort %s, want %s", gf.Name, iv.S, is)
+			}
+			iv.Ty = it
+			if it == nil {
+				iv.Unsigned = true
+			}
+			cc := base.with(ab.IdxVar, iv)
+			return cc.eval(ab.Body)
+		}}, nil
+	}
 	h := c.e.heap(c.st, "G_"+gf.Name, ArraySort(SLoc, s))
 	return TV{Val: Select(h, loc), Ty: t, Unsigned: true}, nil
 }
